@@ -388,19 +388,17 @@ pub fn judge_step(
     let mut out = vec![];
     if let Some(p) = &obs.panicked {
         out.push(("panic".to_string(), format!("session panicked: {p}")));
-        return out;
-    }
-    if obs.budget_exceeded {
+    } else if obs.budget_exceeded {
         out.push(("busy-loop".to_string(), "poll budget exceeded".to_string()));
-        return out;
-    }
-    if let Some(e) = &obs.ended {
+    } else if let Some(e) = &obs.ended {
         out.push((
             format!("session-ended:{}", expect.class),
             format!("session ended ({e}) on a well-framed request"),
         ));
-        return out;
     }
+    // a session that died is reported as such, not through its missing reply; the handler calls
+    // it made before dying are judged like any others
+    let died = !out.is_empty();
     // reply bytes
     let written: Vec<u8> = obs.written.concat();
     let acceptable: Vec<Vec<u8>> = if expect.replies.is_empty() {
@@ -418,7 +416,8 @@ pub fn judge_step(
             })
             .collect()
     };
-    if !acceptable.iter().any(|a| *a == written) {
+    if died {
+    } else if !acceptable.iter().any(|a| *a == written) {
         let kind = if expect.replies.is_empty() {
             "unexpected-reply"
         } else if written.is_empty() {
